@@ -142,6 +142,62 @@ def judge_stream(msgs, seps, p, case_of):
                             % ([g[1] for g in got], [w[2]['nvalues'] for w in want]), observed=stream)
 
 
+def sized_message(L):
+    """a valid edition-4 message (data category 2, one subset of 205YYY character fields) of exactly L octets"""
+    from mc.ref.bits import BitBuf
+    k = 1
+    while L - 45 - 2 * k > 255 * k:
+        k += 1
+    D = L - 45 - 2 * k
+    assert D >= k, L
+    sizes = [D // k + (1 if i < D % k else 0) for i in range(k)]
+    bb = BitBuf()
+    for n in sizes:
+        for j in range(n):
+            bb.put(0x61 + (j % 26), 8)
+    b = message.build(message.Spec(edition=4, meta={'data_category': 2}, descs=[205000 + n for n in sizes], nsub=1), bb)[0]
+    assert len(b) == L, (len(b), L)
+    return b, len(sizes)
+
+
+def length_values(tier):
+    """total lengths whose low octet takes every value 0..255, whose middle octet takes every value 1..255 (quick: the
+    control characters, 0x42 'B', 0x37 '7', 0x7f, 0x80, 0xff), plus lengths with special values in both"""
+    lows = list(range(64, 64 + 256))
+    mids = range(1, 256) if tier == 'thorough' else [1, 2, 9, 10, 11, 12, 13, 26, 27, 32, 0x37, 0x42, 0x7f, 0x80, 0xff]
+    both = [0x0a0a, 0x0d0a, 0x0a0d, 0x4255, 0x3737, 0x0100, 0x0a00, 0xff0a, 0xffff]
+    return lows + [m * 256 + 0x45 for m in mids] + both + ([0x010000, 0x010a0a, 0x0a0000 + 77] if tier == 'thorough' else [0x010000 + 10])
+
+
+def run_lengths(Ls):
+    """[A, M_L, A] for every length L: the scan must deliver all three, with their exact bytes, in both modes, with and
+    without a filter that holds for M_L only"""
+    p = Partial()
+    A = pool()[0][1]
+    for L in Ls:
+        m, nfields = sized_message(L)
+        stream = A + m + b'\r\n' + A
+        p.n['nodes'] += 1
+        for info_only in (False, True):
+            for expr, want in ((None, [A, m, A]), ('${%data_category} == 2 and ${%length} == ' + str(L), [m])):
+                p.n['exec'] += 1
+                p.n['edges'] += 1
+                case = {'length': L, 'info_only': info_only, 'filter': expr}
+                try:
+                    got = scan(stream, info_only, expr)
+                except Exception as e:
+                    p.violation('scan-raises:%s|%s|length-bytes' % (type(e).__name__, 'info' if info_only else 'full'), case, repr(e))
+                    continue
+                p.outcome((L >> 16, min((L >> 8) & 255, 16), min(L & 255, 16), info_only, expr is None))
+                if [g[0] for g in got] != want:
+                    p.violation('messages|%s|length-bytes' % ('info' if info_only else 'full'), case,
+                                'a message of %d octets (length octets %s) between two others: yielded lengths %r, expected %r'
+                                % (L, L.to_bytes(3, 'big').hex(), [len(g[0]) for g in got], [len(w) for w in want]))
+                elif not info_only and expr is None and got[1][1] != [nfields]:
+                    p.violation('decoded-shape|full|length-bytes', case, 'value counts %r, expected %r' % (got[1][1], [nfields]))
+    return p
+
+
 def run_product(args):
     """full product for a list of message tuples: every separator assignment"""
     tuples = args
@@ -224,6 +280,10 @@ def run_cli(tuples):
 
 def replay(part, case):
     p = Partial()
+    if part == 'length-bytes':
+        p = run_lengths([case['length']])
+        return [{'sig': v['sig'], 'detail': v['detail']} for v in p.viol
+                if v['case']['info_only'] == case['info_only'] and v['case']['filter'] == case['filter']]
     if part == 'cli':
         p = run_cli([(case['msgs'], case['seps'])])
     else:
@@ -255,6 +315,11 @@ def main(tier, seed):
         p = merge_all(run_shards(run_tree, [(s, bound) for s in split(tuples, 64)]))
         rep.add_part('tree-j%d-d%d' % (j, bound), p, bounds={'messages_in_stream': j, 'deviations': bound,
                                                              'message_tuples': len(tuples)})
+    Ls = length_values(tier)
+    p = merge_all(run_shards(run_lengths, split(Ls, 64)))
+    rep.add_part('length-bytes', p, bounds={'lengths': len(Ls), 'low_octet': 'every value 0..255',
+                                            'middle_octet': 'every value 1..255' if tier == 'thorough' else 'control characters and signature bytes',
+                                            'stream': '[A, M_L, CR LF, A]', 'modes': 2, 'filters': 2})
     cl = [((), (s,)) for s in range(len(SEPARATORS))]
     cl += [((m,), (a, b)) for m in idx for a in range(len(SEPARATORS)) for b in range(len(SEPARATORS))]
     cl += [((m1, m2), (0, s, 0)) for m1 in idx for m2 in idx for s in (0, 5, 7)]
